@@ -262,9 +262,32 @@ def _raise_only_guards(s: Summary, guards: tuple) -> tuple:
     return tuple(keep)
 
 
+def _idempotent_skip_guards(s: Summary, ev: Ev, guards: tuple) -> tuple:
+    """Drop the guards under which a keyed write ``T[k] = v`` is skipped although it would change nothing:
+    ``T.get(k) != v`` (the entry is there already), and ``k != k2`` where ``T[k2] = v`` is written
+    unconditionally with the same value (a synonym repeating the canonical name)."""
+    if not (ev.kind == "store" and op(ev.a) == "item"):
+        return guards
+    T, k, v = ev.a[1], ev.a[2], ev.b
+    got = ("call", ("attr", T, "get"), (k,), ())
+    keep = []
+    uncond = None
+    for a, pol in guards:
+        if op(a) == "cmp" and a[1] == "==" and {a[2], a[3]} == {got, v} and pol is False:
+            continue
+        if op(a) == "cmp" and a[1] == "==" and k in (a[2], a[3]) and pol is False:
+            k2 = a[3] if a[2] == k else a[2]
+            if uncond is None:
+                uncond = [(e2.a[2], e2.b) for e2, c2 in s.walk() if e2.kind == "store" and op(e2.a) == "item" and e2.a[1] == T and not [g for g in c2.guards if g.kind == "guard"]]
+            if (k2, v) in uncond:
+                continue
+        keep.append((a, pol))
+    return tuple(keep)
+
+
 def _conds(ctx: Ctx, s: Summary | None = None, ev: Ev | None = None) -> tuple:
     if s is not None and ev is not None:
-        return _raise_only_guards(s, s.must_guards(ev)) + bypass_cond(s, ev)
+        return _idempotent_skip_guards(s, ev, _raise_only_guards(s, s.must_guards(ev))) + bypass_cond(s, ev)
     out = []
     for g in ctx.guards:
         if g.kind == "guard":
@@ -806,6 +829,37 @@ def single_return(cx: Cx, fn: FunctionInfo):
     return p.out[1]
 
 
+def _specialised_return(cx: Cx, m: FunctionInfo, b: dict):
+    """The return term of ``m`` for THIS call: paths whose tests of a parameter disagree with the literal the call
+    (or the default) binds it to are not taken; exactly one straight-line path must remain."""
+    import ast as _ast
+
+    s = cx.summary(m)
+    live = []
+    for p in s.paths:
+        ok = True
+        for ev in p.events:
+            if ev.kind == "guard":
+                a = ev.a
+                v = b.get(a[1]) if op(a) == "param" else None
+                if op(v) == "default":
+                    prm = m.param(v[1])
+                    v = ("const", prm.default.value) if prm is not None and isinstance(prm.default, _ast.Constant) else None
+                if v is not None and is_const(v):
+                    if bool(v[1]) != ev.b:
+                        ok = False
+                        break
+                    continue
+                return None
+            if ev.kind != "bind":
+                return None
+        if ok:
+            live.append(p)
+    if len(live) == 1 and live[0].out is not None and live[0].out[0] == "return":
+        return live[0].out[1]
+    return None
+
+
 def inline_methods(cx: Cx, t, self_term, cls_q: str, names: set[str], depth: int = 0):
     """Replace ``self.<name>(...)`` calls by the (single-return) body of the method."""
     from .terms import substitute
@@ -818,6 +872,8 @@ def inline_methods(cx: Cx, t, self_term, cls_q: str, names: set[str], depth: int
         if m is not None:
             body = single_return(cx, m)
             b = bind_args(m, t, recv=t[1][1])
+            if body is None and b is not None:
+                body = _specialised_return(cx, m, b)
             if body is not None and b is not None:
                 mapping = {("param", k): inline_methods(cx, v, self_term, cls_q, names, depth + 1) for k, v in b.items()}
                 return inline_methods(cx, substitute(body, mapping), self_term, cls_q, names, depth + 1)
